@@ -9,6 +9,10 @@
 
 use std::time::{Duration, Instant};
 
+/// Address-space limit of one execution (the workload needs a few hundred MiB of address space:
+/// up to four 64 MiB worker stacks, one 64 MiB-aligned malloc arena per thread).
+pub const MEMORY_LIMIT: u64 = 5 << 29; // 2.5 GiB
+
 #[derive(Debug, Clone)]
 pub enum Death {
     Signal(i32),
@@ -25,7 +29,7 @@ impl std::fmt::Display for Death {
                 "the process was killed by signal {s}{}",
                 match *s {
                     11 => " (SIGSEGV: stack overflow)",
-                    6 => " (SIGABRT: abort, e.g. stack overflow detected by the runtime or a panic while panicking)",
+                    6 => " (SIGABRT: abort - memory allocation failed under the 2.5 GiB address-space limit, stack overflow detected by the runtime, or a panic while panicking)",
                     _ => "",
                 }
             ),
@@ -59,6 +63,8 @@ pub fn run<F: FnOnce() -> Vec<u8>>(f: F, timeout: Duration) -> Result<Vec<u8>, D
             libc::close(fds[0]);
             let lim = libc::rlimit { rlim_cur: cpu_secs as libc::rlim_t, rlim_max: (cpu_secs + 2) as libc::rlim_t };
             libc::setrlimit(libc::RLIMIT_CPU, &lim);
+            let mem = libc::rlimit { rlim_cur: MEMORY_LIMIT as libc::rlim_t, rlim_max: MEMORY_LIMIT as libc::rlim_t };
+            libc::setrlimit(libc::RLIMIT_AS, &mem);
             let bytes = match std::panic::catch_unwind(std::panic::AssertUnwindSafe(f)) {
                 Ok(b) => b,
                 Err(_) => libc::_exit(4),
@@ -277,6 +283,9 @@ impl ForkServer {
                             libc::close(b[1]);
                             let lim = libc::rlimit { rlim_cur: cpu_secs as libc::rlim_t, rlim_max: (cpu_secs + 2) as libc::rlim_t };
                             libc::setrlimit(libc::RLIMIT_CPU, &lim);
+                            // runaway allocation must kill this execution (allocation failure aborts), not the machine
+                            let mem = libc::rlimit { rlim_cur: MEMORY_LIMIT as libc::rlim_t, rlim_max: MEMORY_LIMIT as libc::rlim_t };
+                            libc::setrlimit(libc::RLIMIT_AS, &mem);
                             let req = std::slice::from_raw_parts(p as *const u8, len);
                             let bytes = match std::panic::catch_unwind(|| handler(req)) {
                                 Ok(b) => b,
